@@ -14,7 +14,7 @@ CONDS = [
          '[name OP "operand" flag] matches an element with attribute value v  <=>  reference string predicate(v)',
          'v: every string with len <= 3 quick / 4 thorough over all of Unicode; 7 operators x 9 operands (incl. empty, '
          'space, dash, non-ASCII) x flags {none, i, s} x attribute {t, type}; HTML and XML trees',
-         timeout={'quick': 100, 'thorough': 900}, parts={'quick': 7, 'thorough': 16}),
+         timeout={'quick': 100, 'thorough': 900}, parts={'quick': 7, 'thorough': 10}),
     Cond('attr_list_value_ok', 'list-valued attributes compare as their space-joined value', 'len(v1), len(v2) <= 2',
          timeout={'quick': 80, 'thorough': 900}, parts={'quick': 1, 'thorough': 8}),
     Cond('id_class_ok', '#i1 / .k / .k.m against symbolic id and class content',
@@ -27,7 +27,7 @@ CONDS = [
          ':nth-*(An+B [of S]), structural pseudo-classes) + 9 regression shapes; tree pool: 60 / 200 seeded random trees '
          '(<= 8 elements, depth <= 3, text/comment/CDATA/PI interleaved; HTML builder, XML builder, detached) + 3 parsed '
          'documents; VERIF_SEED rotates both pools',
-         timeout={'quick': 100, 'thorough': 900}, parts={'quick': 4, 'thorough': 16}),
+         timeout={'quick': 100, 'thorough': 900}, parts={'quick': 4, 'thorough': 8}),
     Cond('symbolic_structure_ok',
          '18 structural selectors containing attribute tests on a 5-element tree whose three t attributes are symbolic '
          'strings (each present or absent): select == reference',
